@@ -5,6 +5,7 @@ use crate::util::Stats;
 use std::io::Write;
 
 pub mod url;
+pub mod htmldecode;
 pub mod inline;
 pub mod block;
 pub mod noderender;
@@ -53,6 +54,7 @@ pub type StreamFn = fn(n: usize, rng: &mut Rng, out: &mut Out);
 pub fn streams() -> Vec<(&'static str, StreamFn)> {
     vec![
         ("url", url::run as StreamFn),
+        ("htmldecode", htmldecode::run as StreamFn),
         ("inline", inline::run as StreamFn),
         ("block", block::run as StreamFn),
         ("noderender", noderender::run as StreamFn),
